@@ -657,3 +657,21 @@ impl<'a> HuginnNet<'a> {
         }
     }
 }
+
+/// verif hook H3: public doorway to the private packet loop (filter + analyze_tcp + send), so a
+/// simulator can be the packet source. Calls the private function verbatim; compiled only under
+/// the guard.
+#[cfg(huginn_net_verif)]
+impl HuginnNet<'_> {
+    pub fn verif_process_with<F>(
+        &mut self,
+        packet_fn: F,
+        sender: Sender<FingerprintResult>,
+        cancel_signal: Option<Arc<AtomicBool>>,
+    ) -> Result<(), HuginnNetError>
+    where
+        F: FnMut() -> Option<Result<Vec<u8>, HuginnNetError>>,
+    {
+        self.process_with(packet_fn, sender, cancel_signal)
+    }
+}
